@@ -775,8 +775,12 @@ func urlPairsReadSSA(fn *ssa.Function, typ string) map[string]string {
 				})
 				return out
 			}
-			for _, a := range x.Call.Args {
-				out = append(out, keys(a, stack, depth+1)...)
+			// any other call may change the value (TrimSpace, ToLower, ...): only the pointer-of
+			// helper hands it on as it is
+			if obj := core.CalleeObj(x.Common()); obj != nil && obj.Name() == "Ptr" && obj.Pkg() != nil && strings.HasSuffix(obj.Pkg().Path(), "pointerx") {
+				for _, a := range x.Call.Args {
+					out = append(out, keys(a, stack, depth+1)...)
+				}
 			}
 		}
 		return out
